@@ -5,6 +5,8 @@ import (
 	"strings"
 	"testing"
 
+	"pgregory.net/rapid"
+
 	"verif/gen"
 	m "verif/model"
 	"verif/ref"
@@ -269,6 +271,69 @@ func TestC03(t *testing.T) {
 	}
 	c03stress.Each(t, "stress-classes", eachStress(big))
 	c03.Run(t, budget(8000, 480000))
+	c03src.Run(t, budget(12000, 640000))
 }
 
 var _ = ref.BuiltIns
+
+// ---- arbitrary source strings that happen to compile
+
+type SrcCase struct {
+	Src string `json:"src"`
+}
+
+var srcEnvTypes = map[string]*m.Type{
+	"a": m.Num, "b": m.Bool, "s": m.Str, "x": m.Num, "xs": m.List(m.Num), "mp": m.Map(m.Str, m.Num),
+	"o": m.Obj(m.Field{Name: "a", T: m.Num}, m.Field{Name: "b", T: m.Str}), "t": m.Time,
+}
+
+var srcEnvVals = map[string]*m.Val{
+	"a": m.VNum(2), "b": m.VBool(true), "s": m.VStr("aé"), "x": m.VNum(-1.5), "xs": m.VList(m.Num, m.VNum(1), m.VNum(2), m.VNum(2)),
+	"mp": m.VMap(m.Str, m.Num, m.Entry{K: m.VStr("k"), V: m.VNum(7)}),
+	"o":  m.VObj(m.Obj(m.Field{Name: "b", T: m.Str}, m.Field{Name: "a", T: m.Num}), m.VStr("y"), m.VNum(3)), "t": m.VTimeUnix(86400),
+}
+
+func genSrcCase(t *rapid.T) *SrcCase {
+	c := genAPICase(t)
+	if rapid.IntRange(0, 2).Draw(t, "useenvnames") > 0 {
+		// splice environment names / calls in, so that more strings type-check
+		parts := []string{c.Src}
+		for i := rapid.IntRange(0, 3).Draw(t, "nsplice"); i > 0; i-- {
+			parts = append(parts, pick2(t, []string{"+", "==", "&&", "?", ":", ",", "(", ")", "[", "]", ".", "a", "x", "xs", "mp", "o.a", "o.b", "s", "b", "xs[0]", `mp["k"]`, "len(xs)", "max(xs)", "string(a)", "1", `"q"`, "true", "if(b, a, x)", "get(xs, 5, 0)"}))
+		}
+		for i := len(parts) - 1; i > 0; i-- {
+			j := rapid.IntRange(0, i).Draw(t, "shuf")
+			parts[i], parts[j] = parts[j], parts[i]
+		}
+		c.Src = strings.Join(parts, " ")
+	}
+	return &SrcCase{Src: c.Src}
+}
+
+func checkSrcDiff(c *SrcCase) *Outcome {
+	pc := &ProgCase{Env: srcEnvTypes, Vals: srcEnvVals, Extra: run.StdHarness}
+	r := &CaseRun{Src: c.Src, Core: &m.Expr{K: "var", Name: "?"}, Flags: map[string]int{}}
+	for _, be := range run.AllBackends {
+		en := run.NewEngine(be, pc.Extra)
+		o := en.RunSrc(c.Src, pc.Env, pc.Vals)
+		br := &BackendRun{O: o}
+		if o.Compiled() && !o.Failed() {
+			br.Val, br.Probs = run.FromYaeVal(o.Val, nil)
+		}
+		r.Runs = append(r.Runs, br)
+	}
+	err, fam := compareBackends(pc, r)
+	if err != nil {
+		return &Outcome{Err: err}
+	}
+	if fam != "" {
+		return skip(fam)
+	}
+	cls := "all-value"
+	if r.Runs[0].O.Failed() {
+		cls = "all-fail"
+	}
+	return ok(true, "arbitrary-source-that-compiles", cls)
+}
+
+var c03src = Register(&Prop[SrcCase]{ID: "C03", Name: "source-strings", Gen: genSrcCase, Check: checkSrcDiff})
